@@ -594,6 +594,22 @@ func (p *Prog) nilGuarded(info *types.Info, fd *ast.FuncDecl, parents map[ast.No
 		})
 		return found
 	}
+	// (c) the path conditions say so: `!v.IsNil()` / `x != nil` holds at the call (then-branch of the positive form,
+	//     whatever the other branch looks like)
+	for _, f := range factsWithSwitch(parents, call) {
+		switch x := ast.Unparen(f.e).(type) {
+		case *ast.CallExpr:
+			if g := Callee(info, x); g != nil && (g.Name() == "IsNil" || g.Name() == "isNil") && f.neg {
+				return true
+			}
+		case *ast.BinaryExpr:
+			if id, ok := ast.Unparen(x.Y).(*ast.Ident); ok && id.Name == "nil" {
+				if (x.Op == token.NEQ && !f.neg) || (x.Op == token.EQL && f.neg) {
+					return true
+				}
+			}
+		}
+	}
 	// (a) call inside the else branch of a nil test whose then-branch writes nil
 	for n := ast.Node(call); n != nil; n = parents[n] {
 		if ifs, ok := parents[n].(*ast.IfStmt); ok && ifs.Else == n && isNilTest(ifs.Cond) && writesNil(ifs.Body) {
